@@ -9,7 +9,7 @@
    The grammar is raw (EMPTY may occur in right-hand sides); derivations are over the
    stripped grammar [strip_prods e ps], the grammar the rest of the verification uses. *)
 From Coq Require Import NArith List Bool Lia Arith.
-From PV Require Import Spec.Cfg Model.First Validators.TableComplete Proofs.SetProofs
+From PV Require Import Spec.Cfg Model.First Model.TableSpec Validators.TableComplete Proofs.SetProofs
   Proofs.CompleteProofs.
 Import ListNotations.
 Local Open Scope N_scope.
@@ -84,15 +84,6 @@ Section Derives.
       apply IH; [exact Hc|apply Hall; exact Hc|exact HX'].
   Qed.
 End Derives.
-
-(* ---- well-formedness of the numbering ------------------------------------------ *)
-Definition prod_wfb (nnts nterms : nat) (p : prod) : bool :=
-  (N.to_nat (lhs p) <? nnts)%nat &&
-  forallb (fun x => match x with T t => (N.to_nat t <? nterms)%nat | NT _ => true end) (rhs p).
-(* every left-hand side is one of the nnts nonterminals, every terminal (EMPTY too) one of
-   the nterms terminals *)
-Definition prods_wfb (e : N) (nnts nterms : nat) (ps : list prod) : bool :=
-  (N.to_nat e <? nterms)%nat && forallb (prod_wfb nnts nterms) ps.
 
 Section FirstCorrect.
   Variable e : N.
